@@ -16,3 +16,13 @@ Definition run_c06 (kvs : list (colname * cval)) (q : query) (fkey : colname) : 
     if J_eqb (JL a) (JL b) then JL (a ++ [dump_c c])
     else JL [JS "SPEC<>MODEL"; JL a; JL b]
   end.
+(* a SEQUENCE of inc/exc calls (one after the other in one process, on the same or on different tables): every call is judged on its own *)
+Definition run_c06_step (kq : list (colname * cval) * query) : J :=
+  match c_new_cols (fst kq) with
+  | inr e => err_J e
+  | inl c =>
+    let a := [res_J dump_c (c_inc c (snd kq)); res_J dump_c (c_exc c (snd kq))] in
+    let b := [res_J dump_r (r_inc (abs c) (snd kq)); res_J dump_r (r_exc (abs c) (snd kq))] in
+    if J_eqb (JL a) (JL b) then JL a else JL [JS "SPEC<>MODEL"; JL a; JL b]
+  end.
+Definition run_c06_steps (steps : list (list (colname * cval) * query)) : J := JL (map run_c06_step steps).
